@@ -19,6 +19,11 @@ pub struct Fault {
     /// 0 = `ErrorKind::Other`, 1 = `ErrorKind::WouldBlock`, 2 = `Ok(0)` (sink: device full;
     /// reader: premature EOF = truncated file), 3 = `ErrorKind::UnexpectedEof`.
     pub hard_kind: u8,
+    /// Sinks only: how the sink is handed to the code under test. 0 = `&mut sink`; otherwise *by
+    /// value* inside a buffering adapter the callee then owns (1 = `BufWriter` 8 KiB, 2 = `BufWriter`
+    /// of 16 bytes, 3 = `LineWriter`): bytes the callee leaves in the adapter reach the medium only
+    /// when the adapter is dropped, where errors are lost - the callee has to flush.
+    pub wrap: u8,
 }
 
 impl Fault {
@@ -26,7 +31,7 @@ impl Fault {
         self.hard_at.is_none()
     }
     pub fn is_none(&self) -> bool {
-        self.chunks.is_empty() && self.intr.is_empty() && self.hard_at.is_none()
+        self.chunks.is_empty() && self.intr.is_empty() && self.hard_at.is_none() && self.wrap == 0
     }
     pub fn to_json(&self) -> J {
         let mut o = J::obj();
@@ -39,6 +44,9 @@ impl Fault {
         if let Some(h) = self.hard_at {
             o.put("hard_at", J::i(h));
             o.put("hard_kind", J::i(self.hard_kind));
+        }
+        if self.wrap != 0 {
+            o.put("wrap", J::i(self.wrap));
         }
         o
     }
@@ -54,6 +62,7 @@ impl Fault {
             f.hard_at = Some(h as u64);
             f.hard_kind = j.get("hard_kind").and_then(|x| x.as_i64()).unwrap_or(0) as u8;
         }
+        f.wrap = j.get("wrap").and_then(|x| x.as_i64()).unwrap_or(0) as u8;
         Ok(f)
     }
 }
@@ -167,6 +176,9 @@ impl Op {
             if !f.intr.is_empty() {
                 t.push_str("~i");
             }
+            if f.wrap != 0 {
+                t.push_str(&format!("~w{}", f.wrap));
+            }
         }
         t
     }
@@ -213,6 +225,17 @@ fn bytes_from_json(j: &J) -> Result<Vec<u8>, String> {
             out.push(u8::from_str_radix(t, 16).map_err(|e| e.to_string())?);
         }
         return Ok(out);
+    }
+    // compact form for hand-written witnesses with very many similar rows:
+    // {"numbered_rows": N, "suffix": S, "tail": T} = "1S\n2S\n...NS\n" followed by T
+    if let Some(n) = j.get("numbered_rows").and_then(|x| x.as_i64()) {
+        let suffix = j.get("suffix").and_then(|x| x.as_str()).unwrap_or("");
+        let mut out = String::new();
+        for i in 1..=n {
+            out.push_str(&format!("{i}{suffix}\n"));
+        }
+        out.push_str(j.get("tail").and_then(|x| x.as_str()).unwrap_or(""));
+        return Ok(out.into_bytes());
     }
     Err("file without text/hex".into())
 }
